@@ -1,7 +1,7 @@
 (* Property C19 — dense matrix storage keeps rows aligned and contents intact
    across operations.  This file contains only the property theorems (closed by
    [exact] of lemmas from DenseProofs), statement pins and assumption audits. *)
-From Coq Require Import List Arith Bool Lia.
+From Coq Require Import List Arith Bool Lia Permutation.
 From LMBase Require Import Res ListX.
 From LMDense Require Import DenseModel DenseProofs.
 Import ListNotations.
@@ -95,6 +95,21 @@ Proof.
   - exact (s_eqb_abs eqT a b).
   - exact (abs_clone C S pad a).
   - intros Hr. exact (clone_eq C S eqT Hr pad a).
+Qed.
+
+(* Forward / reverse / interleaved double-ended iteration visits exactly the rows:
+   all-front = the rows in order, all-back = the rows in reverse order, any
+   interleaving of next() / next_back() of total length rows = every row once. *)
+Theorem C19_iteration :
+  forall (T : Type) (t : @table T),
+    take_mixed (repeat true (length t)) t = t /\
+    take_mixed (repeat false (length t)) t = rev t /\
+    (forall pat, length pat = length t -> Permutation (take_mixed pat t) t).
+Proof.
+  intros T t. repeat split.
+  - exact (take_mixed_front t).
+  - exact (take_mixed_back (length t) t eq_refl).
+  - intros pat. exact (take_mixed_perm pat t).
 Qed.
 
 (* Non-vacuity: the hypotheses are met by the matrices the code builds, and the
